@@ -132,6 +132,24 @@ def run(ctx):
                         zero_here = (te9[1] == "Eq") == bool(v9)
                         ctx.require(not zero_here, "R-C11-9", "arm|" + sfx9.split("::")[-1], "%s divides on the arm where the triangle field is not zero" % sfx9.split("::")[-1],
                                     "%s takes the quotient on the arm where the triangle field IS zero and returns the constant where it is not: every node with a triangle gets coefficient 0" % sfx9.split("::")[-1], loc_str(st9.span))
+                # ... and such a test exists: the divisor is zero for d < 2 (undirected) resp. d_tot(d_tot-1) == 2 d_rec (a
+                # node whose only neighbour is joined by a reciprocated pair), where the triangle field is zero too, so a
+                # quotient taken without a zero test of the triangle field (or of the divisor itself) is 0/0 = NaN there
+                div9 = norm(f9.describe(st9.rv.ops[1], depth=12))
+                guarded9 = False
+                for (te9, v9, a9) in controlling_atoms(f9, st9.bb):
+                    if not isinstance(te9, tuple):
+                        continue
+                    zero9 = desc_mentions(te9, lambda x: x[0] == "const" and re.match(r"const 0(_|\.0|f)", x[1]) is not None)
+                    if zero9 and te9[0] == "binop" and te9[1] in ("Eq", "Ne", "Gt", "Lt") and desc_mentions(te9, lambda x: x[0] == "place" and x[1].split(".")[-1].endswith("triangles")):
+                        guarded9 = True
+                    if zero9 and te9[0] == "binop" and te9[1] in ("Eq", "Ne", "Gt", "Lt") and (te9[2] == div9 or te9[3] == div9):
+                        guarded9 = True
+                    # `match o.number_of_triangles { 0 => 0.0, n => n / .. }`: an integer switch on the field itself
+                    if not isinstance(v9, bool) and te9[0] in ("place", "cast") and desc_mentions(te9, lambda x: x[0] == "place" and x[1].split(".")[-1].endswith("triangles")):
+                        guarded9 = True
+                ctx.require(guarded9, "R-C11-9", "zero-guard|" + sfx9.split("::")[-1], "the quotient of %s is taken behind a zero test of the triangle field (or of the divisor)" % sfx9.split("::")[-1],
+                            "the quotient of %s is not behind a zero test of the triangle field or of its divisor: where the divisor is zero (a node of degree < 2; on a directed graph also a node whose only neighbour is joined by a reciprocated pair of edges) the coefficient is 0/0 = NaN instead of 0" % sfx9.split("::")[-1], loc_str(st9.span))
                 if r9[0] is None:
                     ctx.undecided("R-C11-9", "denominator|" + sfx9.split("::")[-1], "the divisor in %s is not an arithmetic expression over the degree fields (%s)" % (sfx9.split("::")[-1], fmt_desc(d9)[:120]), loc_str(st9.span))
                 else:
